@@ -492,7 +492,8 @@ impl<'tcx> D<'tcx> {
             if let Some(t) = a.as_type() {
                 targs.push(self.tid(t));
             } else if let Some(c) = a.as_const() {
-                targs.push(J::obj(vec![("const", jstr(&c)), ("val", J::opt(c.try_to_target_usize(tcx), |v| J::UInt(v as u128)))]));
+                let leaf = c.try_to_leaf().map(|si| si.to_bits(si.size()));
+                targs.push(J::obj(vec![("const", jstr(&c)), ("val", J::opt(leaf, |v| J::UInt(v)))]));
             } else {
                 targs.push(J::Null);
             }
